@@ -56,6 +56,8 @@ type l2Case struct {
 	Samples []any
 	Args    []any
 	Note    []string
+	// Clean: the arguments before any perturbation (what a correct caller would pass)
+	Clean []any
 }
 
 // typeUse collects how the query uses each type name.
@@ -299,6 +301,7 @@ func genL2(r *rng.R, g *qgen.G, seeds []string) (*l2Case, bool) {
 		}
 		c.Args = append(c.Args, arg)
 	}
+	c.Clean = append([]any{}, c.Args...)
 	if r.Chance(1, 12) || (focusBulk && r.Chance(1, 4)) {
 		// both slice forms of one type, []T and []*T, filled with different values: the
 		// statement must use []T for every column and reject the unused []*T
@@ -726,6 +729,66 @@ func runL2Interleaved(c *l2Case, alt []any) (res *l2Run) {
 	return res
 }
 
+// runL2After runs the case's arguments on a Statement that has already been run once with
+// `first`: what the second run sends (or its rejection) must be what a fresh Statement
+// produces for the same arguments (C16; a rejection that disappears is C08's subject).
+func runL2After(c *l2Case, first []any) (res *l2Run) {
+	res = &l2Run{mode: "none"}
+	defer func() {
+		if p := recover(); p != nil {
+			res.panic = fmt.Sprint(p)
+		}
+	}()
+	env := newL2Env()
+	defer env.db.PlainDB().Close()
+	stmt, err := sqlair.Prepare(c.Q, c.Samples...)
+	if err != nil {
+		res.prepErr = err.Error()
+		return res
+	}
+	res.prepOk = true
+	_ = env.db.Query(context.Background(), stmt, first...).Run()
+	n0 := len(env.state.Events())
+	err = env.db.Query(context.Background(), stmt, c.Args...).Run()
+	evs := env.state.Events()
+	sqlOf := map[int]string{}
+	for _, e := range evs {
+		if e.Kind == "prepare" {
+			sqlOf[e.Stmt] = e.SQL
+		}
+	}
+	for _, e := range evs[n0:] {
+		switch e.Kind {
+		case "exec", "query":
+			res.mode = e.Kind
+			res.sql = sqlOf[e.Stmt]
+			for i, n := range e.Names {
+				res.params = append(res.params, [2]string{n, e.Args[i]})
+			}
+		}
+	}
+	if err != nil && strings.HasPrefix(err.Error(), "invalid input parameter: ") {
+		res.bindErr = err.Error()
+		return res
+	}
+	res.bindOk = true
+	return res
+}
+
+// refill builds fresh values of the arguments' types (other zero patterns, other lengths).
+func refill(r *rng.R, args []any) []any {
+	out := make([]any, len(args))
+	for i, a := range args {
+		if a == nil {
+			continue
+		}
+		f := &desc.Filler{R: r.Fork(), Keys: []string{"k", "id", "name"}}
+		f.N = r.Intn(1000) * 100
+		out[i] = f.Fill(reflect.TypeOf(a), 0).Interface()
+	}
+	return out
+}
+
 func l2Request(c *l2Case, res *l2Run) map[string]any {
 	tbl := desc.NewTable()
 	samples := []any{}
@@ -761,7 +824,7 @@ func describeL2(c *l2Case) map[string]any {
 	return map[string]any{"q": hx(c.Q), "text": printable(c.Q), "samples": ss, "args": as, "notes": c.Note}
 }
 
-var l2Props = []string{"C01", "C03", "C04", "C05", "C07", "C08"}
+var l2Props = []string{"C01", "C02", "C03", "C04", "C05", "C07", "C08"}
 
 type earlyCase struct {
 	c   *l2Case
@@ -836,6 +899,7 @@ func runL2(args []string) {
 		det := true
 		detail := ""
 		valuesStray := ""
+		afterAccepts := "" // arguments a fresh Statement rejects were accepted after a first run (C08)
 		{
 			a2 := append([]any{}, c.Args...)
 			for i := range a2 {
@@ -861,6 +925,33 @@ func runL2(args []string) {
 						valuesStray = fmt.Sprintf("the arguments handed to the driver are not the values of the supplied arguments once another Query of the same Statement was built in between: %v vs %v", r3.params, res.params)
 					}
 					detail = fmt.Sprintf("a Query built before another Query of the same Statement ran with different SQL/arguments than alone: %v vs %v", r3.obs(), res.obs())
+				}
+			}
+			if res.prepOk {
+				// the same Statement, already run once: with the unperturbed arguments when the
+				// case's were perturbed, otherwise with fresh values of the same types
+				first := refill(cr, c.Args)
+				what := "with other values of the same types"
+				if len(c.Clean) != len(c.Args) || fmt.Sprintf("%#v", c.Clean) != fmt.Sprintf("%#v", c.Args) {
+					first = c.Clean
+					what = "with the unperturbed arguments"
+				}
+				r4 := runL2After(c, first)
+				// without an execution at the driver (rejected, or a value the driver cannot
+				// convert) only acceptance is comparable: the SQL is known from the prepare
+				// event, which a cached statement does not repeat
+				k := func(r *l2Run) string {
+					if r.mode == "none" {
+						return fmt.Sprint(r.prepOk, r.bindOk, r.mode)
+					}
+					return r.key()
+				}
+				if r4.panic == "" && k(r4) != k(res) {
+					det = false
+					detail = fmt.Sprintf("a Statement that had been run once %s gave a different result than a fresh Statement: %v vs %v", what, r4.obs(), res.obs())
+					if r4.bindOk && !res.bindOk {
+						afterAccepts = detail
+					}
 				}
 			}
 			if *conc > 0 && res.prepOk {
@@ -916,6 +1007,9 @@ func runL2(args []string) {
 		if valuesStray != "" {
 			holds["C03"] = false
 		}
+		if afterAccepts != "" {
+			holds["C08"] = false
+		}
 		anyBad := false
 		for p, ok := range holds {
 			if !ok {
@@ -926,6 +1020,9 @@ func runL2(args []string) {
 				}
 				if p == "C03" && valuesStray != "" {
 					d = valuesStray
+				}
+				if p == "C08" && afterAccepts != "" {
+					d = afterAccepts
 				}
 				rep.addHolds(p, Finding{Case: describeL2(c), Kind: "holds", Detail: d, Holds: holds, Impl: res.obs(), Model: resp["model"]})
 			}
